@@ -28,6 +28,7 @@ fn valid_gen(g: Generation) -> bool {
 fn c13__generation__is_root_contract() {
     let g: Generation = kani::any();
     g.is_root();
+    kani::cover!(true); // vacuity guard: the end of the harness is reachable under its assumptions
 }
 
 #[kani::proof_for_contract(Generation::is_parent_of)]
@@ -35,6 +36,7 @@ fn c13__generation__is_parent_of_contract() {
     let a: Generation = kani::any();
     let b: Generation = kani::any();
     a.is_parent_of(b);
+    kani::cover!(true); // vacuity guard: the end of the harness is reachable under its assumptions
 }
 
 #[kani::proof_for_contract(Generation::can_contain_values_from)]
@@ -42,17 +44,20 @@ fn c13__generation__can_contain_contract() {
     let a: Generation = kani::any();
     let b: Generation = kani::any();
     a.can_contain_values_from(b);
+    kani::cover!(true); // vacuity guard: the end of the harness is reachable under its assumptions
 }
 
 #[kani::proof_for_contract(Generation::next)]
 fn c13__generation__next_contract() {
     let a: Generation = kani::any();
     a.next();
+    kani::cover!(true); // vacuity guard: the end of the harness is reachable under its assumptions
 }
 
 #[kani::proof_for_contract(Generation::disjoint)]
 fn c13__generation__disjoint_contract() {
     Generation::disjoint();
+    kani::cover!(true); // vacuity guard: the end of the harness is reachable under its assumptions
 }
 
 /// `next` panics only at i32::MAX (2^31 nested child VMs) -- totality elsewhere is the
@@ -73,6 +78,7 @@ fn c13__generation__disjoint_shares_nothing() {
     let g: Generation = kani::any();
     kani::assume(g.0 >= 0);
     assert!(!Generation::disjoint().can_contain_values_from(g));
+    kani::cover!(true); // vacuity guard: the end of the harness is reachable under its assumptions
 }
 
 /// A child heap is strictly younger than its parent: the child may hold parent values,
@@ -94,6 +100,7 @@ fn c13__generation__child_is_strictly_younger() {
     if g.0 >= 0 {
         assert!(!c.is_root());
     }
+    kani::cover!(true); // vacuity guard: the end of the harness is reachable under its assumptions
 }
 
 /// The share test is a total pre-order compatible with ancestry: transitive, reflexive,
@@ -111,6 +118,7 @@ fn c13__generation__share_iff_not_younger() {
     if a.can_contain_values_from(b) && b.can_contain_values_from(c) {
         assert!(a.can_contain_values_from(c));
     }
+    kani::cover!(true); // vacuity guard: the end of the harness is reachable under its assumptions
 }
 
 // ---------------------------------------------------------------- shared helpers
@@ -172,6 +180,7 @@ fn c13__generation__gc_mark_agrees_with_share() {
     }
     mem::forget(owner);
     mem::forget(recv);
+    kani::cover!(true); // vacuity guard: the end of the harness is reachable under its assumptions
 }
 
 // ---------------------------------------------------------------- C07 / mem-limit
@@ -219,6 +228,8 @@ macro_rules! mem_limit_harness {
                 assert!(before.saturating_add(hdr).saturating_add(size) >= limit);
             }
             assert!(gc.memory_limit == limit);
+            kani::cover!(ok, "vacuity guard: a successful allocation is reachable");
+            kani::cover!(!ok, "vacuity guard: a refused allocation is reachable");
             mem::forget(gc);
         }
     };
@@ -261,4 +272,5 @@ fn c07__check_collect__trigger_iff_limit_reached() {
         assert!(gc.collect_limit == climit && gc.allocated_memory == before);
     }
     mem::forget(gc);
+    kani::cover!(true); // vacuity guard: the end of the harness is reachable under its assumptions
 }
